@@ -125,8 +125,12 @@ class Aggregate(list):
             mutexes: Sequence[Sequence[str]],
             predicate: Callable[[int], bool],
         ) -> None:
+            # Repeated children are passed as args (list members), not kwargs
+            listitems = {type(arg).__name__.lower() for arg in args}
             for mutex in mutexes:
-                count = sum([kwargs.get(m, None) is not None for m in mutex])
+                count = sum(
+                    [kwargs.get(m, None) is not None or m in listitems for m in mutex]
+                )
                 if not predicate(count):
                     kwargs_ = ", ".join(
                         ["{}={}".format(m, kwargs.get(m, None)) for m in mutex]
